@@ -36,6 +36,10 @@ int vorbis_synthesis(vorbis_block *vb,ogg_packet *op){
 
   /* first things first.  Make sure decode is ready */
   _vorbis_block_ripcord(vb);
+  /* the previous packet's pcm vectors lived in the storage just released;
+     do not leave them dangling if this packet is rejected below */
+  vb->pcm=NULL;
+  vb->pcmend=0;
   oggpack_readinit(opb,op->packet,op->bytes);
 
   /* Check the packet type */
@@ -100,6 +104,10 @@ int vorbis_synthesis_trackonly(vorbis_block *vb,ogg_packet *op){
 
   /* first things first.  Make sure decode is ready */
   _vorbis_block_ripcord(vb);
+  /* the previous packet's pcm vectors lived in the storage just released;
+     do not leave them dangling if this packet is rejected below */
+  vb->pcm=NULL;
+  vb->pcmend=0;
   oggpack_readinit(opb,op->packet,op->bytes);
 
   /* Check the packet type */
